@@ -319,6 +319,15 @@ def specs_for(units):
     return S
 
 
+# units whose theorem is a composition of other traced units: their index-notation meaning rests on those
+DEPENDS = {
+    "st_pull_back": ["st_push_forward", "t_invert"],
+    "st_change_basis": ["st_fromRotationMatrix", "st_comp"],
+    "tt_change_basis": ["tt_fromRotationMatrix", "tt_comp"],
+    "ts_change_basis": ["st_fromRotationMatrix", "tt_fromRotationMatrix", "ts_comp_st_ts", "ts_comp_ts_tt"],
+}
+
+
 def unit_of_theorem(thm, names):
     """traced unit a broken theorem talks about: the longest unit name that is a prefix of the theorem name"""
     best = None
@@ -371,6 +380,15 @@ def run(ck):
                 return by_unit[u]
             return None
         ck.lean_violations(res, search)
+    broken_units = {unit_of_theorem(fl.get("theorem") or "", names) for fl in res.failed} if not res.ok else set()
+    for f in found:
+        m = re.match(r"(N\d)_(.*)", f["unit"])
+        deps = [m.group(1) + "_" + d for d in DEPENDS.get(m.group(2), [])]
+        hit = [d for d in deps if d in broken_units]
+        if f["unit"] not in explained and hit:
+            explained.add(f["unit"])
+            ck.violation("thm-dep:" + f["unit"], "%s (proved as a composition of %s) disagrees with its index-notation "
+                         "definition: the theorem of %s no longer checks" % (f["unit"], ", ".join(deps), ", ".join(hit)), f, True)
     for f in found:
         if f["unit"] not in explained:
             # the reference disagrees with the traced code on a unit whose theorems check (or that has no
